@@ -1471,7 +1471,8 @@ META = dict(
         "the object-level model started from the observed detector state, and judged against the specification, inside "
         "Coq."),
     level_note=(
-        "Trusted: Coq kernel + vm_compute; translator/c02.py; the correspondence harness and probes; exactness of float "
+        "Trusted: Coq kernel + vm_compute; translator/c02.py and the normaliser translator/c02_norm.py it reads the "
+        "source through (differentially self-tested on every run); the correspondence harness and probes; exactness of float "
         "arithmetic on the generated dyadic times (checked per case); numpy expression / file readers return what the "
         "harness computes with the same numpy. Not carried: rounding of np.diff for non-dyadic times; infinite times; "
         "models that themselves tamper with the clock or call detector.empty(); 'non-zero times' is read as 'first time "
